@@ -53,7 +53,11 @@ func (j *rjob) Execute(context.Context) error {
 	if k < len(j.script) {
 		o = j.script[k]
 	}
-	j.outs = append(j.outs, o)
+	if o == 'c' { // an error that wraps a context error although the scheduler's context is alive: an error like any other
+		j.outs = append(j.outs, 'e')
+	} else {
+		j.outs = append(j.outs, o)
+	}
 	j.mu.Unlock()
 	if j.longAt == k+1 {
 		// read by the same goroutine when it builds the next retry timer
@@ -71,6 +75,8 @@ func (j *rjob) Execute(context.Context) error {
 	switch o {
 	case 'e':
 		return errRetryScript
+	case 'c':
+		return fmt.Errorf("the attempt's own deadline: %w", context.DeadlineExceeded)
 	case 'p':
 		panic("scripted job panic")
 	}
@@ -318,6 +324,8 @@ func runRetryCase(c retryCase, long time.Duration) retryResult {
 	jopts.MaxRetries = c.maxRetries
 	jopts.RetryInterval = c.interval
 	job := &rjob{script: c.script, opts: jopts, sig: make(chan struct{}, 1), long: long}
+	c.script = strings.ReplaceAll(c.script, "c", "e") // for the expectations and the model 'c' is a failure like 'e'
+	desc = strings.Replace(desc, "script=", "(c = an error wrapping context.DeadlineExceeded) script=", 1)
 	key := quartz.NewJobKey("main")
 	jd := quartz.NewJobDetailWithOptions(job, key, jopts)
 	job.opts = jd.Options() // the job detail keeps its own copy of the options
@@ -648,7 +656,15 @@ func retryRun(args []string) int {
 	long := fs.Duration("long", 60*time.Second, "RetryInterval of the wait during which the context is ended")
 	par := fs.Int("par", 16, "schedulers running concurrently")
 	canary := fs.Int("canary", -1, "internal: run the single case script \"ep\" in the given mode and exit")
+	canary2 := fs.String("canary2", "", "internal: <mode>:<stop|ctx> — the context ends during an attempt that then panics")
 	fs.Parse(args)
+	if *canary2 != "" {
+		var m int
+		var via string
+		fmt.Sscanf(strings.Replace(*canary2, ":", " ", 1), "%d %s", &m, &via)
+		retryCanaryPanicAfterCancel(m, via)
+		return 0
+	}
 	r := rand.New(rand.NewSource(*seed))
 
 	if *canary >= 0 {
@@ -684,6 +700,35 @@ func retryRun(args []string) int {
 			crashed = append(crashed, fmt.Sprintf("C13 a panicking job was not contained: the process running the scheduler died (%v; %s) [mode=%s MaxRetries=2 script=\"ep\": second attempt panics]", cerr, first, retryModes[mode]))
 		}
 	}
+	for mode := range retryModes {
+		for _, via := range []string{"stop", "ctx"} {
+			cmd := exec.Command(selfExe(), "retry", "--canary2", fmt.Sprintf("%d:%s", mode, via), "--out", *out)
+			done := make(chan struct{})
+			var outp []byte
+			var cerr error
+			go func() { outp, cerr = cmd.CombinedOutput(); close(done) }()
+			select {
+			case <-done:
+			case <-time.After(60 * time.Second):
+				_ = cmd.Process.Kill()
+				<-done
+			}
+			what := fmt.Sprintf("[mode=%s MaxRetries=2: the scheduler's context ends (%s) while an attempt is running, the attempt then panics]", retryModes[mode], via)
+			switch {
+			case cerr != nil:
+				first := ""
+				for _, l := range strings.Split(string(outp), "\n") {
+					if strings.HasPrefix(l, "panic:") || strings.HasPrefix(l, "fatal error:") {
+						first = l
+						break
+					}
+				}
+				crashed = append(crashed, fmt.Sprintf("C13 a panicking job was not contained: the process running the scheduler died (%v; %s) %s", cerr, first, what))
+			case strings.Contains(string(outp), "WAIT-HUNG"):
+				crashed = append(crashed, "C13 Wait did not return within 5 s after the context ended during an attempt that then panicked "+what)
+			}
+		}
+	}
 	if len(crashed) > 0 {
 		writeLines(*out+"/ops.txt", nil)
 		writeLines(*out+"/impl.txt", nil)
@@ -712,6 +757,14 @@ func retryRun(args []string) int {
 						cases = append(cases, retryCase{mode: mode, maxRetries: m, script: sc, cancelAt: k, via: via, interval: *interval})
 					}
 				}
+			}
+		}
+	}
+	// failures whose error wraps a context error while the scheduler's context is alive (a job with a deadline of its own)
+	for mode := range retryModes {
+		for _, sc := range []string{"cco", "cec", "ccc", "eco", "cp"} {
+			for _, m := range []int{2, 3} {
+				cases = append(cases, retryCase{mode: mode, maxRetries: m, script: sc, interval: *interval})
 			}
 		}
 	}
@@ -793,6 +846,17 @@ func retryRun(args []string) int {
 			samples = append(samples, res.sample)
 		}
 	}
+	// pause / resume histories before the failing execution
+	for mode := range retryModes {
+		for _, hist := range []string{"none", "pause-resume-before-start", "pause-start-resume", "running-pause-resume"} {
+			for _, x := range retryAfterPauseResume(mode, hist) {
+				if len(viol) < 60 {
+					viol = append(viol, x)
+				}
+			}
+			dist["end"]["after history "+hist]++
+		}
+	}
 	// the context ends during an attempt
 	inAttempt := 0
 	for mode := range retryModes {
@@ -824,3 +888,159 @@ func retryRun(args []string) int {
 		len(cases), len(ops), minGap, *interval, len(viol))
 	return 0
 }
+
+// retryAfterPauseResume: the retry configuration of a job survives every history of pause / resume before the failing
+// execution (the scheduler re-queues the job on both calls): still 1 + MaxRetries attempts, still RetryInterval apart.
+func retryAfterPauseResume(mode int, history string) []string {
+	const interval = 25 * time.Millisecond
+	desc := fmt.Sprintf("mode=%s MaxRetries=2 RetryInterval=%v every attempt fails; history before the execution: %s", retryModes[mode], interval, history)
+	opts := []quartz.SchedulerOpt{quartz.WithOutdatedThreshold(time.Minute)}
+	switch mode {
+	case 0:
+		opts = append(opts, quartz.WithBlockingExecution())
+	case 1:
+		opts = append(opts, quartz.WithWorkerLimit(2))
+	}
+	s, err := quartz.NewStdScheduler(opts...)
+	must(err)
+	ctx, cancel := context.WithCancel(context.Background())
+	defer cancel()
+	var mu sync.Mutex
+	var starts, ends []time.Time
+	job := &fnErrJob{f: func() error {
+		mu.Lock()
+		starts = append(starts, time.Now())
+		mu.Unlock()
+		time.Sleep(time.Millisecond)
+		mu.Lock()
+		ends = append(ends, time.Now())
+		mu.Unlock()
+		return errRetryScript
+	}}
+	jo := quartz.NewDefaultJobDetailOptions()
+	jo.MaxRetries, jo.RetryInterval = 2, interval
+	key := quartz.NewJobKey("pr")
+	sched := func() {
+		must(s.ScheduleJob(quartz.NewJobDetailWithOptions(job, key, jo), quartz.NewSimpleTrigger(time.Hour)))
+	}
+	// the trigger's first fire time is an hour away; the job is made due by a final Replace with a short run-once trigger
+	switch history {
+	case "none":
+	case "pause-resume-before-start":
+		sched()
+		must(s.PauseJob(key))
+		must(s.ResumeJob(key))
+	case "pause-start-resume":
+		sched()
+		must(s.PauseJob(key))
+	case "running-pause-resume":
+		s.Start(ctx)
+		sched()
+		must(s.PauseJob(key))
+		must(s.ResumeJob(key))
+	}
+	s.Start(ctx)
+	if history == "pause-start-resume" {
+		must(s.ResumeJob(key))
+	}
+	if history == "none" {
+		sched()
+	}
+	// make it due now WITHOUT building a new job detail: pause + resume with a trigger... the entry keeps its trigger, so instead
+	// the SAME job detail object is re-scheduled with Replace and a short run-once trigger (ScheduleJob keeps the given detail)
+	sj, gerr := s.GetScheduledJob(key)
+	if gerr != nil {
+		s.Stop()
+		return []string{"C13 the job is not in the registry after the history [" + desc + "]"}
+	}
+	jd := sj.JobDetail()
+	jd.Options().Replace = true
+	must(s.ScheduleJob(jd, quartz.NewRunOnceTrigger(5*time.Millisecond)))
+	deadline := time.Now().Add(5 * time.Second)
+	for time.Now().Before(deadline) {
+		mu.Lock()
+		n := len(ends)
+		mu.Unlock()
+		if n >= 3 {
+			break
+		}
+		time.Sleep(time.Millisecond)
+	}
+	time.Sleep(3 * interval)
+	s.Stop()
+	wctx, wc := context.WithTimeout(context.Background(), 3*time.Second)
+	s.Wait(wctx)
+	wc()
+	mu.Lock()
+	defer mu.Unlock()
+	var v []string
+	if len(starts) != 3 {
+		v = append(v, fmt.Sprintf("C13 %d attempt(s) were made, the configuration requires 3 [%s]", len(starts), desc))
+	}
+	for i := 1; i < len(starts) && i < len(ends)+1; i++ {
+		if gap := starts[i].Sub(ends[i-1]); gap < interval-time.Millisecond {
+			v = append(v, fmt.Sprintf("C13 attempt %d started %v after attempt %d ended, RetryInterval is %v: the job's retry configuration did not survive the history [%s]", i+1, gap.Round(time.Microsecond), i, interval, desc))
+			break
+		}
+	}
+	return v
+}
+
+type fnErrJob struct{ f func() error }
+
+func (j *fnErrJob) Execute(context.Context) error { return j.f() }
+func (j *fnErrJob) Description() string           { return "fnerr" }
+
+// retryCanaryPanicAfterCancel (child process): the scheduler's context ends while an attempt is running, and that attempt then
+// panics (clean-up code that fails once the context is gone). The panic must be contained like any other.
+func retryCanaryPanicAfterCancel(mode int, via string) {
+	opts := []quartz.SchedulerOpt{quartz.WithOutdatedThreshold(time.Minute)}
+	switch mode {
+	case 0:
+		opts = append(opts, quartz.WithBlockingExecution())
+	case 1:
+		opts = append(opts, quartz.WithWorkerLimit(2))
+	}
+	s, err := quartz.NewStdScheduler(opts...)
+	must(err)
+	ctx, cancel := context.WithCancel(context.Background())
+	defer cancel()
+	s.Start(ctx)
+	entered := make(chan struct{}, 1)
+	job := &ctxPanicJob{entered: entered}
+	jo := quartz.NewDefaultJobDetailOptions()
+	jo.MaxRetries, jo.RetryInterval = 2, time.Millisecond
+	must(s.ScheduleJob(quartz.NewJobDetailWithOptions(job, quartz.NewJobKey("cp"), jo), quartz.NewRunOnceTrigger(time.Millisecond)))
+	select {
+	case <-entered:
+	case <-time.After(10 * time.Second):
+		fmt.Println("NOT-REACHED")
+		return
+	}
+	if via == "ctx" {
+		cancel()
+	} else {
+		s.Stop()
+	}
+	wctx, wc := context.WithTimeout(context.Background(), 5*time.Second)
+	s.Wait(wctx)
+	ok := wctx.Err() == nil
+	wc()
+	if ok {
+		fmt.Println("CONTAINED")
+	} else {
+		fmt.Println("WAIT-HUNG")
+	}
+}
+
+type ctxPanicJob struct{ entered chan struct{} }
+
+func (j *ctxPanicJob) Execute(ctx context.Context) error {
+	select {
+	case j.entered <- struct{}{}:
+	default:
+	}
+	<-ctx.Done()
+	panic("clean-up after cancellation failed")
+}
+func (j *ctxPanicJob) Description() string { return "ctx-panic" }
